@@ -204,7 +204,7 @@ package generator
 // (the partition and the emission are per element). The returned closure is
 // applied to a fresh emitter, called `out` in the posts.
 //@ func (*jsonFormatter).generate
-//@   props C19 C04 C09 C01 C17
+//@   props C19 C04 C09 C01 C17 C18
 //@   option call-result emitter
 //@   shape validators = absvals(0) | absvals(1) | absvals(2) | absvals(3)
 //@   shape declType = decl(T,none) | decl(T,struct) | decl(T,addl2) | decl(Plain,none) | decl(Plain,addl)
@@ -220,7 +220,7 @@ package generator
 //@   ensures [C01] packages-of-the-additional-properties-block: (uses_pkg(emitted(out), "reflect") <==> struct_has_field(declType.Type, "AdditionalProperties")) && (uses_pkg(emitted(out), "strings") <==> struct_has_field(declType.Type, "AdditionalProperties")) && (uses_pkg(emitted(out), "mapstructure") <==> struct_has_field(declType.Type, "AdditionalProperties"))
 
 //@ func (*yamlFormatter).generate
-//@   props C19 C04 C09 C01 C17
+//@   props C19 C04 C09 C01 C17 C18
 //@   option call-result emitter
 //@   option twin (*jsonFormatter).generate
 //@   shape validators = absvals(0) | absvals(1) | absvals(2) | absvals(3)
@@ -386,9 +386,9 @@ package generator
 //@   ensures [C14,C02] one-field: result == nil ==> len(structType.Fields) == 1 && last(structType.Fields).JSONName == name
 //@   ensures [C04,C09] required-iff: result == nil ==> (contains_str(structType.RequiredJSONFields, name) <==> (requiredNames[name] == true && the_prop(t, name).Default == nil))
 //@   ensures [C04] required-only-this: result == nil ==> len(structType.RequiredJSONFields) <= 1
-//@   ensures [C09] default-carried: result == nil ==> ((last(structType.Fields).DefaultValue != nil) <==> the_prop(t, name).Default != nil)
-//@   ensures [C02,C09] optional-is-nillable: result == nil && requiredNames[name] != true && the_prop(t, name).Default == nil ==> is_nillable(last(structType.Fields).Type)
-//@   ensures [C02,C09] required-or-default-keeps-type: result == nil && (requiredNames[name] == true || the_prop(t, name).Default != nil) ==> last(structType.Fields).Type == call_result("(*schemaGenerator).generateTypeInline", 0)
+//@   ensures [C09,C16] default-carried: result == nil ==> ((last(structType.Fields).DefaultValue != nil) <==> the_prop(t, name).Default != nil)
+//@   ensures [C02,C09,C16] optional-is-nillable: result == nil && requiredNames[name] != true && the_prop(t, name).Default == nil ==> is_nillable(last(structType.Fields).Type)
+//@   ensures [C02,C09,C16] required-or-default-keeps-type: result == nil && (requiredNames[name] == true || the_prop(t, name).Default != nil) ==> last(structType.Fields).Type == call_result("(*schemaGenerator).generateTypeInline", 0)
 //@   ensures [C14] name-recorded: result == nil ==> map_has(uniqueNames, final_base(g, t, name))
 //@   ensures [C14,C16] tags: result == nil ==> last(structType.Fields).Tags == expected_tags(g.config.Tags, name, requiredNames[name] == true)
 
@@ -417,14 +417,14 @@ package generator
 // ---- declaration reuse by structural equality (getDeclByEqualSchema) ----------
 // cmp.Equal is external: cmp_equal(a, b) is its (deterministic) verdict.
 //@ func (*output).getDeclByEqualSchema
-//@   props C02 C10 C20 C08
+//@   props C02 C10 C20 C08 C16 C14 C03 C13
 //@   option inline Opts
 //@   shape o = decls(T) | decls(T,T_1) | decls(T,T_1,T_2) | decls(X)
 //@   shape name = "T"
 //@   shape t = new
 //@   option shape-zero t.
 //@   assigns nothing
-//@   ensures [C02,C10,C20,C08] returns-an-equal-declaration: result != nil ==> cmp_equal(result.SchemaType, t)
+//@   ensures [C02,C10,C20,C08,C16,C14,C03,C13] returns-an-equal-declaration: result != nil ==> cmp_equal(result.SchemaType, t)
 //@   ensures [C02,C10,C20] returns-a-candidate: result != nil ==> result == o.declsByName["T"] || result == o.declsByName["T_1"] || result == o.declsByName["T_2"]
 
 // ---- order of the validators of one field (generateDeclaredType) --------------
@@ -618,12 +618,13 @@ package generator
 //@   ensures [C20] otherwise-registered-under-the-id: result1 == nil && !(outputName == "a.go" && packageName == "p1" && map_has(g.outputs, "s1")) ==> map_has(g.outputs, "new") && g.outputs["new"] == result0
 
 //@ func (*Generator).findOutputFileForSchemaID
-//@   props C20
+//@   props C20 C12
 //@   option both-map-orders
 //@   option noframe
 //@   option inline (*Generator).beginOutput
-//@   shape g = gen(s1=a.go:p1) | gen(s1=a.go:p1;map:s2=p2,b.go,) | gen(map:s2=p2,b.go,;map:s3=p3,c.go,) | gen()
+//@   shape g = gen(s1=a.go:p1) | gen(s1=a.go:p1;map:s2=p2,b.go,) | gen(map:s2=p2,b.go,;map:s3=p3,c.go,) | gen() | gen(map:s2#=p4,d.go,;map:s2=p2,b.go,) | gen(map:s2=p2,b.go,;map:s2#=p4,d.go,)
 //@   shape id = "s1" | "s2" | "s9"
+//@   ensures [C20,C12] ids-match-exactly: id == "s2" && len(g.config.SchemaMappings) == 2 && (g.config.SchemaMappings[0].SchemaID == "s2#" || g.config.SchemaMappings[1].SchemaID == "s2#") && result1 == nil ==> out_file(result0) == "b.go" && out_pkg(result0) == "p2"
 //@   ensures [C20] known-id-keeps-its-output: old(map_has(g.outputs, "s1")) && id == "s1" ==> result1 == nil && result0 == old(g.outputs["s1"])
 //@   ensures [C20] mapped-id-goes-to-its-mapping: id == "s2" && len(g.config.SchemaMappings) >= 1 && g.config.SchemaMappings[len(g.config.SchemaMappings) - 1].SchemaID == "s2" && result1 == nil ==> out_file(result0) == "b.go" && out_pkg(result0) == "p2"
 //@   ensures [C20] unmapped-id-goes-to-the-defaults: id == "s9" && result1 == nil ==> out_file(result0) == "default.go" && out_pkg(result0) == "defpkg"
